@@ -19,7 +19,8 @@ cp "$DEMO" "$DEST/zz_seed_demo_test.go"
 echo "== demo WITHOUT patch (must pass)"
 go test -vet=off -count=1 -run "$RUN" "./$DEST/" > /tmp/confirm/$ID.nopatch.log 2>&1; A=$?
 tail -3 /tmp/confirm/$ID.nopatch.log
-git apply "$SRC/patch.diff" || { echo "patch does not apply"; exit 2; }
+PATCH="$SRC/patch.diff"; [ -f "$SRC/patch.rebased.diff" ] && PATCH="$SRC/patch.rebased.diff"
+git apply "$PATCH" || { echo "patch does not apply"; exit 2; }
 echo "== demo WITH patch (must fail)"
 go test -vet=off -count=1 -run "$RUN" "./$DEST/" > /tmp/confirm/$ID.patch.log 2>&1; B=$?
 tail -5 /tmp/confirm/$ID.patch.log
@@ -36,7 +37,7 @@ OK=1
 [ "$BUILDFAIL" = 0 ] || OK=0
 if [ $OK = 1 ]; then
   OUT=/verif/seeded/$ID; mkdir -p "$OUT"
-  cp "$SRC/patch.diff" "$OUT/patch.diff"; cp "$DEMO" "$OUT/$(basename $DEMO)"; cp "$SRC/README.md" "$OUT/README.md" 2>/dev/null
+  cp "$PATCH" "$OUT/patch.diff"; [ "$PATCH" != "$SRC/patch.diff" ] && cp "$SRC/patch.diff" "$OUT/patch.original.diff"; cp "$DEMO" "$OUT/$(basename $DEMO)"; cp "$SRC/README.md" "$OUT/README.md" 2>/dev/null
   python3 - "$OUT" "$ID" "$PROP" "$DEST" "$RUN" "$(git -C /repo rev-parse --short $BASE)" <<'PY'
 import json,sys
 out,id_,prop,dest,run,base=sys.argv[1:7]
